@@ -51,6 +51,9 @@ Accept(e) ==
                                                         THEN LexCmp([i \in 1..na |-> 0], [i \in 1..Len(e.blk) |-> 0]) ELSE LexCmp(a, e.blk))
        [] e.op = "cmps" -> same /\ e.ret = (IF m = 0 THEN LexCmp([i \in 1..na |-> 0], [i \in 1..Len(CStr(e.blk)) |-> 0]) ELSE LexCmp(a, CStr(e.blk)))
        [] e.op = "utf_len" -> LET w == UtfWalk(a, 1, 0) IN same /\ e.ret = w[1] /\ e.out = <<w[2]>>
+       [] e.op = "acc" -> LET j == IF e.a1 >= 0 THEN e.a1 ELSE e.a1 + na IN
+                          /\ same /\ e.ret = (IF e.a1 >= 0 /\ e.a1 < m THEN e.a1 ELSE -1)            \* a_str_at
+                          /\ e.out = <<(IF j >= 0 /\ j < m THEN j ELSE -1) % 256>>                     \* a_str_of (logged modulo 256)
        [] OTHER -> FALSE
 
 TraceInit == Init /\ l = 1
